@@ -4,6 +4,7 @@ package main
 
 import (
 	"bytes"
+	"context"
 	"fmt"
 	"time"
 
@@ -153,6 +154,36 @@ func concScenarios(r *ev.Run, base lstore.Geometry) []mc.Scenario {
 		}
 		add("shared-sector-chain"+suffix, "steady state (one new block), then Put(A3 a|aa) || Put(B6 bb|bbbb: first and last sector shared) || Put(D4 dd|dd) back to back in one 16-byte block", g, steady,
 			[]concOp{putT(A, [][]byte{A.Content[:1], A.Content[1:]}), putT(B6, [][]byte{B6.Content[:2], B6.Content[2:]}), putT(D, [][]byte{D.Content[:2], D.Content[2:]})}, finalSweep(A, B6, D))
+	}
+	// (b2) in-memory blocks: a buffer obtained by Get and consumed later, and an upload stalled in its copy phase,
+	// while block-sized uploads rotate their block out and cause further blocks to be allocated. In-memory
+	// blocks carry no use count: what keeps a held buffer / a stalled writer harmless is that the memory of a
+	// released block is never handed out again.
+	{
+		g := base
+		g.InMemoryBlocks = true
+		G := lstore.CASObj("G8", "", []byte("g5647382"))
+		H := lstore.CASObj("H8", "", []byte("h0a9b8c7"))
+		prefillA := func(s *lstore.Store, m *model) {
+			if err := s.PutOK(A.Digest, A.Content); err != nil {
+				vsched.HarnessFail("prefill Put(A3): %v", err)
+			}
+			m.add(A.Name, A.Content)
+		}
+		heldGet := func(s *lstore.Store, m *model) {
+			b := s.BA.Get(context.Background(), A.Digest)
+			vsched.Yield("reader.hold")
+			d, err := b.ToByteSlice(100)
+			vsched.Obs("HeldGet:A3=%s", status.Code(err))
+			checkRead("Get", A.Name, A.Content, d, err, m, false, false)
+		}
+		rotate := func(s *lstore.Store, m *model) {
+			for _, o := range []lstore.Obj{C, F, G, H} {
+				putT(o, [][]byte{o.Content})(s, m)
+			}
+		}
+		add("held-buffer-rotation-mem", "A3 stored; buffer of Get(A3) obtained and consumed later || Put(B5 slow, 3 chunks) into A3's block || four block-sized uploads (A3's block is released and further blocks are allocated)", g, prefillA,
+			[]concOp{heldGet, putT(B, [][]byte{B.Content[:1], B.Content[1:3], B.Content[3:]}), rotate}, finalSweep(A, B, C, F, G, H))
 	}
 	// (h) an upload whose source delivers more bytes than its digest states, next to a neighbour's upload.
 	for _, mem := range []bool{true, false} {
